@@ -1,5 +1,9 @@
 # -*- coding: utf-8 -*-
-"""C10 - reference events deliver canonical coordinates, once, in evaluation order"""
+"""C10 - reference events deliver canonical coordinates, once, in evaluation order
+
+case kinds (see RULE): `tree` - one formula on a fresh parser: (a) fixed list and seeded trees, (c) grid of range texts;
+`session` - (d) step k of several formulas evaluated one after another on one parser; `reent` - (e) a host whose callbacks
+evaluate further formulas on the same parser; `setter` - (b) a plan of setter calls for one reference"""
 import copy
 import datetime
 import json
@@ -21,60 +25,112 @@ FUNCTIONS = ['hotxlfp.parser:Parser.call_function', 'hotxlfp.parser:Parser.call_
              'hotxlfp.grammarparser.parser:FormulaParser.p_expression_varseq',
              'hotxlfp.grammarparser.parser:FormulaParser.p_expression_function',
              'hotxlfp.grammarparser.parser:FormulaParser.p_expression_wargs']
-RULE = ('(a) seeded expression trees (depth <= 5 quick, <= 7 thorough) whose leaves are cell references (either case, the '
-        'four $ patterns, columns of 1..4 letters incl. XFD, XFE, ZZZZ, rows 1..1048576 and beyond), ranges in all four corner '
-        'orders with mixed $/case, variables (defined, predefined, undefined, dotted sequences), literals, and whose inner '
-        'nodes are unary minus, the binary operators, arrays, and nested calls of modelled builtins, unmodelled builtins and '
-        'custom functions (incl. zero-argument, omitted slots, `;` rows, a raising function, an unknown name); each rendered '
-        'minimally or fully parenthesised, with or without white space. Listeners on all four events of a fresh '
-        'hotxlfp.Parser record every field in one ordered log and set seeded values (sometimes in several calls, ending '
-        'with None). Oracle: the log equals the post-order list of the reference/call nodes of the generating tree (a '
-        'prefix of it when parse reports an error), each cell event carries label.upper(), coordinates computed by an '
-        'independent bijective base-26 / row-1 reference and the $ flags; each range event carries (min row, min col), '
-        '(max row, max col) built from the written row/column parts and labels that recompose from their own coordinates. '
-        'Compared with the model: record and full event list of `eval`. (b) setter protocols: 0..3 listeners each calling '
-        'the setter 0..3 times with values from {None, 0, 0.0, False, "", "x", 5, [], [1], a date} for each of the four '
-        'events (cell, range, defined/undefined variable, custom/builtin/raising/None-returning function), read back '
-        'directly or through a capturing function; oracle: last non-None value, else blank / stored value / return value; '
-        'compared with the model\'s `applySetters`. (c) a grid of label pairs x $ patterns x case x corner orders. '
-        '(d) multi-step sessions: 1..6 formulas (a fixed list plus seeded ones) evaluated one after another on ONE '
-        'long-lived parser; the references of a session are drawn from a small pool of 1..3 columns x 1..3 rows (the $ '
-        'marker travelling with its column / row, now and then flipped, case mixed), so that the same label comes back as '
-        'a plain cell, as a written corner and as a normalised corner of ranges in all corner orders, inside one formula and '
-        'across formulas, many times. One case per step: the oracle of (a) is applied to EVERY event of EVERY step '
-        '(post-order list of that step, upper-cased label, independent coordinates, $ flags, normalised corners whose '
+RULE = ('(a) kind `tree`: 45 fixed formulas (reversed / one-cell / $-mixed ranges, sheet extremes, aborts, error values, '
+        'omitted slots, rows, arrays, zero rows and leading zeros A0 A01 a007:B03) plus 1500 (quick) / 30000 (thorough) x '
+        'scale seeded expression trees (depth 0..5 quick, 0..7 thorough) whose leaves are cell references (upper, lower or '
+        'mixed case, the four $ patterns, columns of 1..4 letters incl. IV, XFC, XFD, XFE, ZZZ, ZZZZ, rows 1..1048576, the '
+        'boundary rows, and beyond: 1048577, 10^7, 10^9+7, 10^12), ranges in all four corner orders with mixed $/case (15% '
+        'one column, 15% one row; wrapped in SUM where a scalar is needed), variables (6 defined, predefined TRUE / FALSE / '
+        'NULL, 3 undefined, dotted sequences), integer / decimal / text literals, and whose inner nodes are unary minus, the '
+        'binary operators (+ - * / over numeric, & and the six comparisons over scalar sub-trees), flat arrays of 1..3 '
+        'scalars, and nested calls of 10 modelled builtins (SUM IF AND OR NOT ISNUMBER ISBLANK N IFERROR ISTEXT), 3 '
+        'unmodelled ones (MAX ABS COUNT) and custom functions ID / ARGS / K7 (incl. zero-argument K7(), an omitted slot in '
+        'the middle, `;`-separated and two-row `a,b;c,d` argument lists), a raising function BOOM, an unknown name (NOSUCH, '
+        'XYZZY); each rendered minimally or (30%) fully parenthesised, 30% with white space at token boundaries. Listeners '
+        'on all four events of a fresh hotxlfp.Parser record every field (call arguments as deep copies) in one ordered '
+        'log; the cell / range listeners hand over a value fixed by the upper-cased label(s) (crc32: cell blank / 0 / 0.5 / '
+        '1..15, range blank / one of 4 number lists) through one of 4 call scripts (v; junk, v; v, None; None, 99, v, None; '
+        'blank: no call or one call with None). Oracle: the log equals the post-order list of the reference/call nodes of '
+        'the generating tree (for a fixed text: of the tree the real ply tables build with tree-building actions; a text '
+        'they reject is not judged), a prefix of it when the record carries an error; each cell event carries '
+        'label.upper(), coordinates computed by an independent bijective base-26 / row-1 reference and the $ flags; each '
+        'range event carries (min row, min col), (max row, max col) built from the written row/column parts with their $ '
+        'flags and labels that recompose from their own coordinates; a variable event carries the (first) name, a call '
+        'event the name and, for a flat (not two-row) argument list, as many arguments as slots. Compared with the model: '
+        'record (4 ulps or 1e-9 relative) and full event list of `eval` (all fields incl. the part labels; call arguments '
+        'within 4 ulps, unmodelled ones accepted); where the model has no opinion on the result (unmodelled builtin) its '
+        'events must be a prefix of the log; no comparison when a logical reaches an aggregate other than SUM (here MAX). '
+        '(b) kind `setter`, 700 / 6000 x scale: 0..3 listeners each calling the setter 0..3 times with values from a pool '
+        'of 13 {None, 0, 0.0, False, "", "x", 5, [], [1], a date, 3 host objects with an equality of their own: equal to '
+        'everything / raising on foreign operands / element-wise without truth value} (25% of the plans all None) for one '
+        'of the four events: cell, range, variable vx (undefined, or holding one of the 9 plain non-None pool values), '
+        'function (custom returning any pool value incl. None, builtin SUM(1,2), raising BOOM(1)); read back from the '
+        'record or (40%) through a capturing function CAP; here the recording listeners set nothing. Oracle: last non-None '
+        'value, else blank / stored value / return value (3, #DIV/0!), of the same type (host objects: the same object), and '
+        'exactly one event for the reference; compared with the model\'s `applySetters` (a host object: unmodelled value on '
+        'both sides); an undefined variable is oracle-only, and not judged when no value was supplied. (c) kind `tree`, '
+        'fixed texts: a grid of ordered pairs of 8 labels (A1 B5 Z9 AA10 XFD1048576 XFE1048577 ZZZZ100 iv65536; all 64 '
+        'thorough, 12 x scale sampled quick) x 4 $ patterns of the first x (4 thorough / 1 seeded quick) of the second x 4 '
+        'corner orders (first corner alternately upper / lower case), the marker travelling with its row / column, plus one '
+        'ARGS call of the two cells per pair: 204 quick, 4160 thorough. (d) kind `session`: 10 fixed sessions (44 steps) '
+        'plus 350 / 5000 x scale seeded ones of 1..6 formulas evaluated one after another on ONE long-lived parser; a seeded '
+        'step is a bare range (20%), a bare cell (15%) or a tree of depth 1..3 (70% of the sessions) or 1..4 quick / 1..6 '
+        'thorough, 20% fully parenthesised, 20% with white space; 80% of its leaves are references drawn from the '
+        'session\'s pool of 1..3 columns x 1..3 rows, at least 2 labels (the $ marker travelling with its column / row, p 0 '
+        'in half of the sessions, else 0.3 / 0.6, flipped with p 0.06 per use, case mixed), so that the same label comes '
+        'back as a plain cell, as a written corner and as a normalised corner of ranges in all corner orders, inside one '
+        'formula and across formulas, many times. One case per step: the oracle of (a) is applied to EVERY event of EVERY '
+        'step (post-order list of that step, upper-cased label, independent coordinates, $ flags, normalised corners whose '
         'labels recompose), whatever was evaluated before; each step is compared with the (stateless) model\'s `eval` of '
-        'its formula alone. (e) re-entrant hosts: the host stores formulas in 1..4 ranked things - cells (the cell listener '
-        'evaluates the stored formula ON THE SAME PARSER while the outer evaluation is in progress and hands over its '
-        'result), defined names (variable listener) and INDIRECT-like custom functions that evaluate their text argument '
-        '(returning the result or raising the error) - which may use one another (rank order, no cycles, nesting depth up '
-        'to 4); the outer formula uses them at its beginning / in the middle (operand, call argument) / at its end or '
-        'anywhere in a seeded tree. The recording listeners attribute each event to its nesting depth. Oracle: the '
-        'depth-0 events are the post-order list of the OUTER formula (oracle of (a), incl. the references after the '
-        're-entrant call), and record and event list (with call arguments) of the outer evaluation equal those of the '
-        'same formula evaluated on the real implementation with every inner formula evaluated on a parser of its own, i.e. '
-        'with the inner results as constants; the same two demands for every inner evaluation at its own depth. '
-        'Compared with the model: `eval` of the outer formula in an environment where the inner results are constants. '
-        'Non-trivial = at least two events expected (for a later session step: one), or at least one setter call; for '
-        '(e) additionally at least one inner evaluation took place.')
+        'its formula alone. (e) kind `reent`, re-entrant hosts, 16 fixed scenarios plus 400 / 6000 x scale seeded attempts '
+        '(the few that yield no usable acyclic layout are dropped): the host stores formulas (numeric trees of depth 0..2 '
+        'over a pool of 2..3 x 2..3 labels) in 1..4 ranked things - cells (the cell listener evaluates the stored formula '
+        'ON THE SAME PARSER while the outer evaluation is in progress and hands over its result), defined names (variable '
+        'listener) and INDIRECT-like custom functions that evaluate their text argument (returning the result or, in half '
+        'of the scenarios, raising the error) - which may use one another (rank order, no cycles, nesting depth up to 4); '
+        'the outer formula uses them at its beginning / in the middle (operand, call argument of ARGS / SUM / ID / MAX) / '
+        'at its end or anywhere in a seeded tree (depths as in (d)). The recording listeners attribute each event to its '
+        'nesting depth. Oracle: the depth-0 events are the post-order list of the OUTER formula (oracle of (a), incl. the '
+        'references after the re-entrant call), and record and event list (with call arguments; equal types and values, '
+        'errors by text) of the outer evaluation equal those of the same formula evaluated on the real implementation with '
+        'every inner formula evaluated on a parser of its own, i.e. with the inner results as constants; the same two '
+        'demands for every inner evaluation at its own depth. Compared with the model: `eval` of the outer formula in an '
+        'environment where the inner results are constants. Non-trivial = at least two events raised (for a later session '
+        'step: one), or at least one setter call planned; for (e) at least two depth-0 events and at least one inner '
+        'evaluation; every case counts once, no time or step budget. When a proof or the correspondence broke, the whole '
+        'quick family is regenerated with scale 6 (9000 trees, all 64 grid pairs, 2100 sessions, 2400 re-entrant attempts, '
+        '4200 setter plans) and judged by the oracle alone, up to the first failure; a failing generated tree / session / '
+        'outer formula is replaced by a smaller failing one (sub-tree; the step alone or after 1..2 of its predecessors).')
 TRUSTED = ['ply evaluates semantic actions bottom-up, left to right (the model evaluates the tree in post-order); tied by this '
            'correspondence check, not proved',
-           'the tree the model parser builds for the formula text is the generating tree (C04/C05 correspondence)',
+           'the tree the model parser builds for the formula text is the generating tree (C04/C05 correspondence); for fixed '
+           'texts (fixed list, grid, fixed sessions and scenarios) the expected order is read off the tree the real ply '
+           'tables build once the semantic actions are replaced by tree builders (fx.TreeParser), i.e. replacing the actions '
+           'is trusted not to change what is reduced when',
            'hotxlfp.tinyemitter.Emitter.emit calls the registered listeners in registration order (C20); the model receives '
            'the setter calls already flattened in that order',
            'the model is stateless and has no notion of an evaluation in progress: sessions (d) and re-entrant hosts (e) '
            'are tied to it only by this check (each step / the outer formula with inner results as constants = `eval`); '
            'that a parser keeps no state between or across evaluations is not a Lean theorem',
            'the reference run of (e) uses the real implementation with one fresh Parser per inner formula (the pattern of '
-           'tests/test_parser.py); both runs use the same deterministic listeners']
-ASSUMPTIONS = ['labels with a zero row or leading zeros (A0, A01) are outside the statement\'s label domain: order and '
-               'multiplicity are still checked for them, coordinates only against the model',
+           'tests/test_parser.py); both runs use the same deterministic listeners',
+           'the values the listeners hand over are functions of the upper-cased label(s) alone (zlib.crc32) and reach the '
+           'model as its cell / range environment (for fixed texts through a token scan of the text); float results are '
+           'accepted within 4 ulps or 1e-9 relative, float call arguments within 4 ulps; values the model does not model '
+           '(host objects, results of unmodelled builtins) are accepted as such',
+           'harness mechanisms: copy.deepcopy for the recorded call arguments and the handed-over pool values (the host '
+           'objects with their own equality copy to themselves and are looked at by identity only); the steps of a session '
+           'are run once, in order, on one parser and each per-step case reads its slice of that log']
+ASSUMPTIONS = ['labels with a zero row or leading zeros (A0, A01) are outside the statement\'s label domain: order, multiplicity '
+               'and the upper-cased cell label are still checked for them, coordinates (and a range with such a corner) only '
+               'against the model; columns beyond XFD and rows beyond 1048576 are inside it',
                'when parse reports an error, the references after the point of failure are not required to raise events '
-               '(the log must be a prefix of the post-order list)',
+               '(the log must be a prefix of the post-order list); the oracle grants this whenever the record carries an '
+               'error, an error VALUE (1/0, BOOM) included - there the full count is demanded by the model comparison only',
                'for a one-row (one-column) range whose two row (column) parts differ only by $, either part may be reported '
-               'as the start',
+               'as the start; in a range the $ flag belongs to the row / column part it was written on and moves with it '
+               'when the corners are normalised, and a corner label agrees with its coordinates when it is $-flag + column '
+               'letters + $-flag + row number of exactly those parts, in upper case',
                '`corresponding event` for a call = its name (and the number of argument slots for a flat argument list); the '
-               'argument values are compared with the model only (and, for re-entrant hosts, with the non-re-entrant run)',
+               'argument values are compared with the model only (and, for re-entrant hosts, with the non-re-entrant run); '
+               'for a variable = the first name of a dotted sequence, once; literals, operators, arrays and omitted slots '
+               'raise nothing; an unknown function raises no event (the evaluation ends there), an undefined variable does',
+               '`becomes the value of the reference` is observed as the record of the bare reference or as the one argument a '
+               'capturing function receives, and means the same type too (0, 0.0, False, "" pairwise different, lists '
+               'element-wise, host objects the same object); the last non-None value over ALL listeners counts; handing over '
+               'None equals not calling; without a value a cell / range is blank, a defined variable keeps its stored value, '
+               'a call its return value or raised error; an undefined variable left without a value is #NAME? (C09, not '
+               'judged here)',
                'the statement quantifies over formulas, not over parser histories: it is read as holding for every formula '
                'evaluated on a parser that has evaluated other formulas before, and for a formula whose host callbacks '
                'evaluate other formulas on the same parser meanwhile',
